@@ -35,6 +35,7 @@ fn run_case(fields: &[&str]) -> String {
         "RUN" => runs::run_case(fields),
         "PROG" => runs::prog_case(fields),
         "MULTI" => runs::multi_case(fields),
+        "DUMP" => runs::dump_case(fields),
         s => format!("UNKNOWN-SUITE {}", s),
     }
 }
